@@ -193,6 +193,9 @@ def interval(t: T):
         if n in ("numpy.clip",) and len(a) == 3:
             lo, hi = interval(a[1]), interval(a[2])
             if lo and hi:
+                x = interval(a[0])
+                if x:
+                    return max(x[0], lo[0]), max(min(x[1], hi[1]), lo[0])
                 return lo[0], hi[1]
         if n in ("numpy.arccos", "math.acos") and a:
             x = interval(a[0])
@@ -201,7 +204,12 @@ def interval(t: T):
             return 0.0, math.pi
         if n in ("numpy.arcsin", "math.asin") and a:
             return -math.pi / 2, math.pi / 2
-        if n in ("numpy.arctan2", "math.atan2"):
+        if n in ("numpy.arctan2", "math.atan2") and len(a) == 2:
+            y, x = interval(a[0]), interval(a[1])
+            if y and y[0] >= 0:
+                if x and x[0] >= 0:
+                    return 0.0, math.pi / 2
+                return 0.0, math.pi
             return -math.pi, math.pi
         if n in ("numpy.abs", "numpy.fabs", "builtins.abs",
                  "numpy.absolute") and a:
